@@ -41,6 +41,23 @@ pub trait VectorMath {
         ensures r.vw().len() == old(self).vw().len(),
             forall|i: int| 0 <= i < old(self).vw().len() ==> #[trigger] r.vw()[i] == f_add(old(self).vw()[i], c),
             final(self).vw() == final(r).vw();
+    // applies op to every element in place
+    fn scalarop<OP: Fn(F) -> F>(&mut self, op: OP) -> (r: &mut Self)
+        requires forall|x: F| #![trigger op.requires((x,))] op.requires((x,)),
+        ensures r.vw().len() == old(self).vw().len(),
+            forall|i: int| 0 <= i < old(self).vw().len() ==> op.ensures((old(self).vw()[i],), #[trigger] r.vw()[i]),
+            final(self).vw() == final(r).vw();
+    // zip: silently stops at the shorter operand
+    fn scalarop_from<OP: Fn(F) -> F>(&mut self, op: OP, v: &Self) -> (r: &mut Self)
+        requires forall|x: F| #![trigger op.requires((x,))] op.requires((x,)),
+        ensures r.vw().len() == old(self).vw().len(),
+            forall|i: int| 0 <= i < old(self).vw().len() ==>
+                (if i < v.vw().len() { op.ensures((v.vw()[i],), #[trigger] r.vw()[i]) } else { r.vw()[i] == old(self).vw()[i] }),
+            final(self).vw() == final(r).vw();
+    fn rsqrt(&mut self) -> (r: &mut Self)
+        ensures r.vw().len() == old(self).vw().len(),
+            forall|i: int| 0 <= i < old(self).vw().len() ==> #[trigger] r.vw()[i] == f_recip(f_sqrt(old(self).vw()[i])),
+            final(self).vw() == final(r).vw();
     // zip: silently stops at the shorter operand
     fn hadamard(&mut self, y: &Self) -> (r: &mut Self)
         ensures r.vw().len() == old(self).vw().len(),
@@ -85,6 +102,9 @@ impl VectorMath for [F] {
     #[verifier::external_body] fn negate(&mut self) -> (r: &mut Self) { unimplemented!() }
     #[verifier::external_body] fn recip(&mut self) -> (r: &mut Self) { unimplemented!() }
     #[verifier::external_body] fn translate(&mut self, c: F) -> (r: &mut Self) { unimplemented!() }
+    #[verifier::external_body] fn scalarop<OP: Fn(F) -> F>(&mut self, op: OP) -> (r: &mut Self) { unimplemented!() }
+    #[verifier::external_body] fn scalarop_from<OP: Fn(F) -> F>(&mut self, op: OP, v: &[F]) -> (r: &mut Self) { unimplemented!() }
+    #[verifier::external_body] fn rsqrt(&mut self) -> (r: &mut Self) { unimplemented!() }
     #[verifier::external_body] fn hadamard(&mut self, y: &[F]) -> (r: &mut Self) { unimplemented!() }
     #[verifier::external_body] fn axpby(&mut self, a: F, x: &[F], b: F) -> (r: &mut Self) { unimplemented!() }
     #[verifier::external_body] fn waxpby(&mut self, a: F, x: &[F], b: F, y: &[F]) -> (r: &mut Self) { unimplemented!() }
